@@ -1,90 +1,6 @@
-import Lean.Data.Json
-import DrummerVerif.Lemmas.LaunchF
-open Lean Drummer
-
-def jn (j : Json) (k : String) : Nat := (j.getObjValAs? Nat k).toOption.getD 0
-def js (j : Json) (k : String) : String := (j.getObjValAs? String k).toOption.getD ""
-def jb (j : Json) (k : String) : Bool := (j.getObjValAs? Bool k).toOption.getD false
-def ja (j : Json) (k : String) : Array Json := ((j.getObjVal? k).toOption.bind (·.getArr?.toOption)).getD #[]
-def jnums (j : Json) (k : String) : List Nat := (ja j k).toList.map fun x => (x.getNat?).toOption.getD 0
-def jstrs (j : Json) (k : String) : List String := (ja j k).toList.map fun x => (x.getStr?).toOption.getD ""
-
-def bytes (s : String) : Bytes := s.toUTF8.toList
-def unbytes (b : Bytes) : String := (String.fromUTF8? ⟨b.toArray⟩).getD "?"
-
-def parseReq (j : Json) : Request :=
-  { type := match js j "t" with | "create" => .create | "delete" => .delete | "add" => .add | _ => .kill,
-    shardId := jn j "s", members := jnums j "members", confChangeId := jn j "ccid",
-    replicaIdList := jnums j "ids", addressList := jstrs j "addrs", instantiateReplicaId := jn j "inst",
-    raftAddress := js j "addr", join := jb j "join", restore := jb j "restore", appName := js j "app" }
-
-def parseRep (p : Json) : Nat × String :=
-  let a := (p.getArr?.toOption).getD #[]
-  ((a[0]!.getNat?).toOption.getD 0, (a[1]!.getStr?).toOption.getD "")
-
-def parseInfo (j : Json) : ShardInfo :=
-  { shardId := jn j "s", replicaId := jn j "r", isLeader := jb j "leader", cci := jn j "cci",
-    incomplete := jb j "inc", pending := jb j "pend",
-    replicas := (ja j "reps").toList.map parseRep }
-
-def parseLog (p : Json) : LogInfo :=
-  let a := (p.getArr?.toOption).getD #[]
-  { shardId := (a[0]!.getNat?).toOption.getD 0, replicaId := (a[1]!.getNat?).toOption.getD 0 }
-
-def parseCmd (j : Json) : Option Cmd :=
-  match js j "op" with
-  | "tick" => some .tick
-  | "shard" => some (.shard { shardId := jn j "id", members := jnums j "members", appName := js j "app" })
-  | "kv" => some (.kv { key := bytes (js j "key"), value := bytes (js j "value"), instanceId := jn j "inst",
-                        oldInstanceId := jn j "old", tick := jn j "tick", finalized := jb j "fin" })
-  | "report" =>
-    let nhi : NodeHostInfo := {
-      raftAddress := js j "addr"
-      rpcAddress := js j "rpc"
-      region := js j "region"
-      plogIncluded := jb j "plog_inc"
-      plogInfo := (ja j "plog").toList.map parseLog
-      shardIdList := jnums j "ids"
-      shardInfo := (ja j "infos").toList.map parseInfo }
-    some (.report nhi)
-  | "reqs" => some (.requests ((ja j "reqs").toList.map parseReq))
-  | _ => none
-
-def sortBy {α : Type} (f : α → Nat) (l : List α) : List α := (l.toArray.qsort (fun a b => f a < f b)).toList
-def sortByStr {α : Type} (f : α → String) (l : List α) : List α := (l.toArray.qsort (fun a b => f a < f b)).toList
-def listStr (l : List String) : String := "[" ++ ",".intercalate l ++ "]"
-def seqStr (l : List String) : String := String.join (l.map (· ++ ","))
-
-def reqTypeNum : ReqType → Nat | .create => 0 | .delete => 1 | .add => 2 | .kill => 3
-def reqStr (r : Request) : String :=
-  "{" ++ s!"{reqTypeNum r.type}:{r.shardId}:{listStr (r.members.map toString)}:{r.confChangeId}:{listStr (r.replicaIdList.map toString)}:{listStr r.addressList}:{r.instantiateReplicaId}:{r.raftAddress}:{r.join}:{r.restore}:{r.appName}" ++ "}"
-
-def hexDigit (n : Nat) : Char := "0123456789abcdef".toList[n]!
-def hexOf (b : Bytes) : String := String.ofList (b.flatMap fun x => [hexDigit (x.toNat / 16), hexDigit (x.toNat % 16)])
-def unhex (s : String) : Bytes :=
-  let v (c : Char) : Nat := if c.isDigit then c.toNat - '0'.toNat else c.toNat - 'a'.toNat + 10
-  let rec go : List Char → Bytes
-    | a :: b :: rest => UInt8.ofNat (v a * 16 + v b) :: go rest
-    | _ => []
-  go s.toList
-
-def canon (d : DB) : String :=
-  let defs := seqStr ((sortBy (·.shardId) d.shards).map fun c => s!"{c.shardId}:{listStr (c.members.map toString)}:{c.appName}")
-  let kv := seqStr ((sortByStr (fun (e : Bytes × KVRec) => unbytes e.1) d.kv).map fun (_, r) =>
-    let v := if unbytes r.key == "regions-key" then hexOf r.value else unbytes r.value
-    s!"{unbytes r.key}:{v}:{r.instanceId}:{r.tick}:{r.oldInstanceId}:{r.finalized}")
-  let img := seqStr ((sortBy (·.shardId) d.image.shards).map fun (c : Shard) =>
-    s!"{c.shardId}:{c.cci}:[" ++ seqStr ((sortBy (·.replicaId) c.replicas).map fun (r : Replica) =>
-      s!"{r.replicaId}@{r.address}:{r.isLeader}:{r.tick}:{r.firstObserved}") ++ "]")
-  let kill := seqStr (d.image.toKill.map fun k => s!"({k.shardId},{k.replicaId},{k.address})")
-  let hosts := seqStr ((sortByStr (·.address) d.hosts).map fun (h : HostSpec) =>
-    s!"{h.address}:{h.rpcAddress}:{h.region}:{h.tick}:[" ++ seqStr (h.plog.map fun l => s!"({l.shardId},{l.replicaId})") ++ "]:[" ++
-      seqStr ((sortBy id h.shards).map toString) ++ "]")
-  let mbox (m : List (Addr × List Request)) : String :=
-    seqStr ((sortByStr (·.1) m).map fun (a, q) => s!"{a}:[" ++ seqStr (q.map reqStr) ++ "]")
-  let info := seqStr ((sortByStr (·.1) d.hostInfo).map fun (a, i) => s!"{a}:{i.lastTick}")
-  s!"T={d.tick};D={d.launchDeadline};F={d.failed};defs=[{defs}];kv=[{kv}];img=[{img}];kill=[{kill}];hosts=[{hosts}];Requests=[{mbox d.requests}];Outgoing=[{mbox d.outgoing}];info=[{info}]"
-
+import DrummerVerif.Drv.DbProto
+import DrummerVerif.Model.Launch
+open Lean Drummer Drv
 
 def sortPairs (ids : List Nat) (addrs : List String) : List Nat × List String :=
   let ps := ((ids.zip addrs).toArray.qsort (fun a b => a.1 < b.1)).toList
@@ -133,13 +49,14 @@ partial def loop (h : IO.FS.Stream) (d : Option DB) (regions : Option Regions) :
       | none => loop h none regions
       | some db =>
         let (cx, agree) := buildCtx db regions j
-        if !agree then IO.println "sched classify-mismatch" else
-        let r := if js j "mode" == "launch" then Drummer.launchF cx (jnums j "draws") else maintain cx (jnums j "draws")
+        let mode := js j "mode"
+        if !agree then IO.println s!"sched {mode} classify-mismatch" else
+        let r := if mode == "launch" then Drummer.launchF cx (jnums j "draws") else maintain cx (jnums j "draws")
         match r with
-        | .panic _ => IO.println "sched panic"
-        | .error _ => IO.println "sched error"
+        | .panic _ => IO.println s!"sched {mode} panic"
+        | .error _ => IO.println s!"sched {mode} error"
         | .ok rs rest =>
-          IO.println s!"sched used={(jnums j "draws").length - rest.length} reqs=[{seqStr (rs.map schedReqStr)}]"
+          IO.println s!"sched {mode} used={(jnums j "draws").length - rest.length} reqs=[{seqStr (rs.map schedReqStr)}]"
         loop h d regions
     else if op == "regions" then
       match d with
@@ -149,7 +66,7 @@ partial def loop (h : IO.FS.Stream) (d : Option DB) (regions : Option Regions) :
         | .ok (db', n) =>
           IO.println s!"{n} {canon db'}"
           let regions' := if n == 0 && (kvGet db.kv (bytes "regions-key")).isNone then
-            some { region := jstrs j "region", count := jnums j "count" } else regions
+            some { region := jstrs j "regs", count := jnums j "counts" } else regions
           loop h (some db') regions'
         | .panic _ => IO.println "panic"; loop h none regions
     else match d, parseCmd j with
